@@ -121,7 +121,7 @@ def run_cycles(steps):
                         trees += 1
                     if name in watches and not watches[name]["alive"]:
                         continue
-                    w = obs.schedule(handler, d, recursive=True)
+                    w = fsops.with_instances(lambda: obs.schedule(handler, d, recursive=True))
                     if name not in watches:
                         watches[name] = {"watch": w, "started": running, "alive": True}
             elif k == "unschedule":
@@ -135,7 +135,7 @@ def run_cycles(steps):
                 # observer's to release at its next stop()
                 if all(t != "InotifyObserver" for t in lib_threads()):
                     try:
-                        obs.start()
+                        fsops.with_instances(obs.start)
                         ever_started = True
                         end = time.monotonic() + 5
                         while time.monotonic() < end and obs.is_alive():
@@ -155,7 +155,7 @@ def run_cycles(steps):
             elif k == "start":
                 if not running and all(t != "InotifyObserver" for t in lib_threads()):
                     try:
-                        obs.start()
+                        fsops.with_instances(obs.start)
                         running = True
                         ever_started = True
                         for w in watches.values():
